@@ -764,7 +764,10 @@ func implExtDecline(cs Case) ImplResult {
 		style, _ := strconv.Atoi(cs.Args[0])
 		a, _ := strconv.Atoi(cs.Args[1])
 		b, _ := strconv.Atoi(cs.Args[2])
-		got := html.VerifSoftLineBreak(html.EastAsianLineBreaks(style), rune(a), rune(b))
+		if !hooksAvailable { // hook-free fallback build: the decision function is not exported
+			return ImplResult{Out: "skip", NoModel: true}
+		}
+		got := hookSoftLineBreak(style, rune(a), rune(b))
 		res.Out = b2s(got)
 		if a >= 128 || b >= 128 {
 			res.Key = strings.Join(cs.Args[:3], "|")
